@@ -11,6 +11,7 @@ import (
 	"encoding/json"
 	"errors"
 	"fmt"
+	"slices"
 	"sort"
 	"strings"
 	"testing"
@@ -214,6 +215,9 @@ func c15e3Scenario(v c15e3Variant) func() *sched.Scenario {
 				if v.Uni {
 					first = 2
 				}
+				if c15e3UnlockPoints && !final {
+					break
+				}
 				if c.id != first+protocol.StreamID(4*i) {
 					return explore.Failf("e3:stream-ids", "%s: %d-th stream handed out has id %d, want %d", v.Name, i, c.id, first+protocol.StreamID(4*i))
 				}
@@ -223,7 +227,7 @@ func c15e3Scenario(v c15e3Variant) func() *sched.Scenario {
 				// FIFO: a caller served with a lower id must not have called later than an
 				// uncancelled caller that was served with a higher id while both were waiting
 				for _, d := range got[i+1:] {
-					if d.waiting != 0 && c.waiting != 0 && d.waiting < c.waiting && !w.cancels[d.name] && !w.cancels[c.name] {
+					if !c15e3UnlockPoints && d.waiting != 0 && c.waiting != 0 && d.waiting < c.waiting && !w.cancels[d.name] && !w.cancels[c.name] {
 						return explore.Failf("e3:not-fifo", "%s: caller %s (began to wait %d-th) got stream %d, caller %s (began to wait %d-th) got stream %d", v.Name, c.name, c.waiting, c.id, d.name, d.waiting, d.id)
 					}
 				}
@@ -231,6 +235,9 @@ func c15e3Scenario(v c15e3Variant) func() *sched.Scenario {
 			// no queue jumping: a caller must not be handed a stream while a caller that was
 			// already waiting when it arrived is still unserved (or served with a higher id)
 			for _, c := range got {
+				if c15e3UnlockPoints && !final {
+					break
+				}
 				for _, d := range w.callers {
 					if d == c || d.waiting == 0 || d.waiting > c.started || w.cancels[d.name] {
 						continue
@@ -254,10 +261,20 @@ func c15e3Scenario(v c15e3Variant) func() *sched.Scenario {
 					return explore.Failf("e3:spurious-close-error", "%s: caller %s returned the close error before CloseWithError", v.Name, c.name)
 				}
 			}
-			// accepted streams: each once, in id order
-			for i, id := range w.accepted {
+			// accepted streams: each once, in id order. With two goroutines in AcceptStream the order
+			// in which the two calls RETURN is not the order in which they were served (a caller can
+			// be descheduled between leaving the map's critical section and returning): the ids
+			// handed out must then be the lowest ones, each once.
+			acc := append([]protocol.StreamID(nil), w.accepted...)
+			if v.Acceptor2 {
+				slices.Sort(acc)
+				if c15e3UnlockPoints && !final {
+					acc = nil // a served caller may not have returned yet
+				}
+			}
+			for i, id := range acc {
 				if id != protocol.StreamID(1+4*i) {
-					return explore.Failf("e3:accept-order", "%s: %d-th accepted stream is %d", v.Name, i, id)
+					return explore.Failf("e3:accept-order", "%s: %d-th accepted stream is %d (accepted so far, in order of return: %v)", v.Name, i, id, w.accepted)
 				}
 			}
 			if !final {
@@ -325,6 +342,14 @@ func c15e3Scenario(v c15e3Variant) func() *sched.Scenario {
 		}
 	}
 }
+
+// c15e3UnlockPoints is set by the lock-point target when every Unlock is a scheduler point as
+// well: a call can then be descheduled between leaving the map's critical section and
+// returning (or between enqueuing itself and blocking), so "has returned" / "is blocked" lag
+// behind "was served" / "has enqueued". Oracles that compare the order of returns are then
+// only evaluated when nothing can run any more, and the order in which callers were seen to
+// block is not taken for the order in which they enqueued.
+var c15e3UnlockPoints bool
 
 type c15e3Replay struct {
 	Variant int   `json:"variant"`
